@@ -47,6 +47,14 @@ class C03(Prop):
                     n = (cap // sizes[k]) * sizes[k]
                 for _ in range(n):
                     jds[rng.randrange(N)][k] += 1
+            if T == 2 and rng.random() < 0.35:
+                # identical degree columns (the two topologies must still be shuffled independently)
+                for r in jds:
+                    r[1] = r[0]
+                if rng.random() < 0.5:
+                    sizes[1] = sizes[0]
+                elif sum(r[1] for r in jds) % sizes[1]:
+                    sizes[1] = 1
             tot = 1
             for k in range(T):
                 tot *= math.factorial(sum(r[k] for r in jds))
